@@ -11,10 +11,41 @@ Inductive rb_gens :=
 | RBPerm (perms : list (list nat))
 | RBMatrix (modulo : Z) (n m : nat) (mats : list (list (list Z))).
 
+(* ---- a faster matrix action: the columns of the state are extracted once per application
+   instead of one [nth] per term; proved below to be Matrix.mat_apply on well-shaped generators ---- *)
+Fixpoint stride (m n : nat) (S : list Z) : list Z :=
+  match n with
+  | O => []
+  | Datatypes.S n' => nth 0 S 0%Z :: stride m n' (skipn m S)
+  end.
+
+Definition columns (n m : nat) (S : list Z) : list (list Z) :=
+  map (fun k => stride m n (skipn k S)) (seq 0 m).
+
+Definition mat_apply_fast (modulo : Z) (n m : nat) (M : list (list Z)) (S : list Z) : list Z :=
+  let cols := columns n m S in
+  flat_map (fun Mi => map (fun col => dot_mod modulo (combine Mi col)) cols) M.
+
+(* what is executed *)
 Definition rb_funs (g : rb_gens) : list (zstate -> zstate) :=
   match g with
   | RBPerm perms => map (fun p => apply_perm 0%Z p) perms
+  | RBMatrix modulo n m mats => map (fun M => mat_apply_fast modulo n m M) mats
+  end.
+
+(* what it denotes: the models of the library's generator actions (Perm.v, Matrix.v) *)
+Definition rb_funs_spec (g : rb_gens) : list (zstate -> zstate) :=
+  match g with
+  | RBPerm perms => map (fun p => apply_perm 0%Z p) perms
   | RBMatrix modulo n m mats => map (fun M => mat_apply modulo n m M) mats
+  end.
+
+(* every matrix generator is n*n *)
+Definition rb_wf (g : rb_gens) : bool :=
+  match g with
+  | RBPerm _ => true
+  | RBMatrix _ n _ mats =>
+      forallb (fun M => (length M =? n) && forallb (fun r : list Z => length r =? n) M) mats
   end.
 
 (* gc_exact = true : gc_row is claimed to be the whole growth function;
@@ -30,12 +61,14 @@ Definition sizes_eqb (sizes : list nat) (row : list Z) : bool :=
   z_list_eqb (map Z.of_nat sizes) row.
 
 Definition check_growth_exact (g : rb_gens) (start : list Z) (row : list Z) : bool :=
+  rb_wf g &&
   match growth_fuel (rb_funs g) [start] (S (length row)) with
   | Some sizes => sizes_eqb sizes row
   | None => false
   end.
 
 Definition check_growth_prefix (g : rb_gens) (start : list Z) (row : list Z) : bool :=
+  rb_wf g &&
   match row with
   | [] => false
   | _ :: rest => sizes_eqb (growth_prefix (rb_funs g) [start] (length rest)) row
@@ -56,10 +89,98 @@ Qed.
 Lemma sizes_eqb_eq sizes row : sizes_eqb sizes row = true -> row = map Z.of_nat sizes.
 Proof. intros H. symmetry. apply z_list_eqb_eq. exact H. Qed.
 
+(* ---- the fast matrix action is Matrix.mat_apply ---- *)
+Lemma nth_skipn_add {A} (d : A) : forall k l i, nth i (skipn k l) d = nth (k + i) l d.
+Proof.
+  induction k as [|k IH]; intros l i; simpl; auto.
+  destruct l as [|a l]; simpl; auto. destruct i; reflexivity.
+Qed.
+
+Lemma map_nth_seq_id {A} (d : A) : forall l, map (fun i => nth i l d) (seq 0 (length l)) = l.
+Proof.
+  induction l as [|a l IH]; simpl; auto. f_equal.
+  rewrite <- seq_shift, map_map. exact IH.
+Qed.
+
+Lemma combine_map_same {A B C} (f : A -> B) (h : A -> C) : forall l,
+  combine (map f l) (map h l) = map (fun x => (f x, h x)) l.
+Proof. induction l as [|a l IH]; simpl; auto. f_equal. exact IH. Qed.
+
+Lemma flat_map_map_r {A B C} (f : B -> list C) (h : A -> B) : forall l,
+  flat_map f (map h l) = flat_map (fun x => f (h x)) l.
+Proof. induction l as [|a l IH]; simpl; auto. f_equal. exact IH. Qed.
+
+Lemma flat_map_ext_in {A B} (f h : A -> list B) : forall l,
+  (forall a, In a l -> f a = h a) -> flat_map f l = flat_map h l.
+Proof.
+  induction l as [|a l IH]; intros H; simpl; auto.
+  rewrite (H a (or_introl eq_refl)), IH; auto. intros b Hb. apply H. right. exact Hb.
+Qed.
+
+Lemma stride_spec m : forall n S, stride m n S = map (fun j => nth (j * m) S 0%Z) (seq 0 n).
+Proof.
+  induction n as [|n IH]; intros S; simpl; auto. f_equal.
+  rewrite IH, <- seq_shift, map_map. apply map_ext. intros j.
+  rewrite nth_skipn_add. reflexivity.
+Qed.
+
+Theorem mat_apply_fast_eq modulo n m M S :
+  length M = n -> (forall r, In r M -> length r = n) ->
+  mat_apply_fast modulo n m M S = mat_apply modulo n m M S.
+Proof.
+  intros HM Hrows. unfold mat_apply, mat_apply_fast, columns.
+  rewrite <- HM at 2.
+  rewrite <- (flat_map_map_r
+    (fun Mi => map (fun k => dot_mod modulo (map (fun j => (nth j Mi 0%Z, mat_entry m S j k)) (seq 0 n)))
+                   (seq 0 m))
+    (fun i => nth i M [])).
+  rewrite map_nth_seq_id.
+  apply flat_map_ext_in. intros Mi HMi. rewrite map_map. apply map_ext. intros k. f_equal.
+  rewrite stride_spec.
+  rewrite <- (map_nth_seq_id 0%Z Mi) at 1. rewrite (Hrows Mi HMi).
+  rewrite combine_map_same. apply map_ext. intros j. f_equal.
+  unfold mat_entry. rewrite nth_skipn_add. f_equal. apply Nat.add_comm.
+Qed.
+
+(* pointwise equal generator lists have the same reference layers *)
+Definition peq (f h : zstate -> zstate) : Prop := forall x, f x = h x.
+
+Lemma N_peq gens gens' : Forall2 peq gens gens' ->
+  forall l, Graph.N zstate gens l = Graph.N zstate gens' l.
+Proof.
+  intros H l. unfold Graph.N. apply flat_map_ext. intros x.
+  induction H as [|f h gens gens' Hfh _ IH]; simpl; auto. rewrite Hfh, IH. reflexivity.
+Qed.
+
+Lemma ref_layers_peq gens gens' : Forall2 peq gens gens' ->
+  forall S i, Graph.ref_layers zstate zstate_eq_dec gens S i = Graph.ref_layers zstate zstate_eq_dec gens' S i.
+Proof.
+  intros H S i. induction i as [|i IH]; simpl; auto.
+  rewrite IH. destruct (Graph.ref_layers zstate zstate_eq_dec gens' S i) as [lj seen].
+  rewrite (N_peq gens gens' H). reflexivity.
+Qed.
+
+Lemma layer_peq gens gens' : Forall2 peq gens gens' ->
+  forall S i, Graph.layer zstate zstate_eq_dec gens S i = Graph.layer zstate zstate_eq_dec gens' S i.
+Proof. intros H S i. unfold Graph.layer. rewrite (ref_layers_peq gens gens' H). reflexivity. Qed.
+
+Lemma rb_funs_peq g : rb_wf g = true -> Forall2 peq (rb_funs g) (rb_funs_spec g).
+Proof.
+  destruct g as [perms | modulo n m mats]; simpl; intros Hwf.
+  - induction perms as [|p perms IH]; simpl; constructor; auto. intros x. reflexivity.
+  - induction mats as [|M mats IH]; simpl in *; constructor.
+    + apply andb_true_iff in Hwf. destruct Hwf as [HM _].
+      apply andb_true_iff in HM. destruct HM as [Hlen Hrows].
+      intros x. apply mat_apply_fast_eq.
+      * apply Nat.eqb_eq. exact Hlen.
+      * intros r Hr. rewrite forallb_forall in Hrows. apply Nat.eqb_eq. apply Hrows. exact Hr.
+    + apply IH. apply andb_true_iff in Hwf. destruct Hwf as [_ H]. exact H.
+Qed.
+
 Section Sound.
   Variable g : rb_gens.
   Variable start : list Z.
-  Local Notation layer := (Graph.layer zstate zstate_eq_dec (rb_funs g) [start]).
+  Local Notation layer := (Graph.layer zstate zstate_eq_dec (rb_funs_spec g) [start]).
 
   (* the row is exactly the growth function: its terms are the layer sizes, no layer before
      its end is empty, and the layer after its end is empty (so nothing else is reachable) *)
@@ -69,21 +190,26 @@ Section Sound.
     layer (length row) = [] /\
     (forall i, (i < length row)%nat -> layer i <> []).
   Proof.
-    unfold check_growth_exact. intros H.
+    unfold check_growth_exact. intros H. apply andb_true_iff in H. destruct H as [Hwf H].
+    pose proof (layer_peq _ _ (rb_funs_peq g Hwf) [start]) as Hl.
     destruct (growth_fuel (rb_funs g) [start] (S (length row))) as [sizes|] eqn:E; [|discriminate].
     apply sizes_eqb_eq in H.
     destruct (growth_correct (rb_funs g) [start] _ sizes E) as (Hs & He & Hne).
     assert (Hlen : length row = length sizes) by (rewrite H, map_length; reflexivity).
-    rewrite Hlen. split; [|split; assumption].
-    rewrite H. rewrite Hs at 1. rewrite map_map. reflexivity.
+    rewrite Hlen. split; [|split].
+    - rewrite H. rewrite Hs at 1. rewrite map_map. apply map_ext. intros i. rewrite Hl. reflexivity.
+    - rewrite <- Hl. exact He.
+    - intros i Hi. rewrite <- Hl. apply Hne. exact Hi.
   Qed.
 
   Theorem check_growth_prefix_sound (row : list Z) :
     check_growth_prefix g start row = true ->
     row = map (fun i => Z.of_nat (length (layer i))) (seq 0 (length row)).
   Proof.
-    unfold check_growth_prefix. destruct row as [|r rest]; [discriminate|]. intros H.
+    unfold check_growth_prefix. intros H. apply andb_true_iff in H. destruct H as [Hwf H].
+    pose proof (layer_peq _ _ (rb_funs_peq g Hwf) [start]) as Hl.
+    destruct row as [|r rest]; [discriminate|].
     apply sizes_eqb_eq in H. rewrite growth_prefix_correct in H.
-    rewrite map_map in H. exact H.
+    rewrite map_map in H. rewrite H at 1. apply map_ext. intros i. rewrite Hl. reflexivity.
   Qed.
 End Sound.
